@@ -19,11 +19,23 @@ Fixpoint lookup (s : subst) (x : N) : option ty :=
 
 Definition dom (s : subst) : list N := map fst s.
 
-(** Substituter: ONE pass (`ty.substitute(subst)` / `transform(Substituter(subst))`) *)
+(** Substituter: ONE pass (`ty.substitute(subst)` / `transform(Substituter(subst))`).
+    Quirk kept: FunctionType.transform rebuilds `FunctionType(inputs, output, params)`, so
+    explicitly given comptime_args are dropped (they are recomputed from `params`; the
+    parameter codes of this model never denote comptime ConstParams, hence none). *)
 Fixpoint app (s : subst) (t : ty) : ty :=
   match t with
   | Ex x => match lookup s x with Some u => u | None => Ex x end
-  | Nd h a => Nd h (map (app s) a)
+  | Nd h a =>
+      match h with
+      | HFun f _ =>
+          Nd h ((fix go (k : nat) (a : list ty) {struct a} : list ty :=
+                   match k, a with
+                   | S k', u :: a' => app s u :: go k' a'
+                   | _, _ => []
+                   end) (S (length f)) a)
+      | _ => Nd h (map (app s) a)
+      end
   end.
 
 (** The idempotent closure sigma*: substitute until no solved variable is left
